@@ -486,6 +486,80 @@ fn connect(ca: &Crypto, cb: &Crypto, ia: u8, ib: u8, init_first: bool) -> Option
     }
 }
 
+/// "cleartext never appears on the wire unless both ends enabled plain", for the node information the handshake
+/// carries: every pair of configurations in which at most one end enables plain (with common ciphers, with disjoint
+/// cipher lists, plain-only against ciphers), either end initiating; whatever the handshake does (complete or fail),
+/// every datagram either end emits - also the repetitions of the next seconds - is searched for the encoded node
+/// information of both ends.
+fn handshake_cleartext(t: &mut Trace, c: &mut Counters) {
+    let mut rng = rng(76);
+    let (pr, pb) = fresh_keypair();
+    let key = KeyCfg::Pair(pr, pb);
+    let lists: Vec<Vec<(u64, u64)>> = vec![vec![], vec![(1, 2)], vec![(2, 2)], vec![(3, 2)], vec![(1, 1), (2, 2)], vec![(1, 2), (2, 1), (3, 3)]];
+    for la in &lists {
+        for lb in &lists {
+            for (ap, bp) in [(true, false), (false, true), (false, false), (true, true)] {
+                if la.is_empty() && !ap || lb.is_empty() && !bp {
+                    continue; // a node without ciphers and without plain cannot be configured
+                }
+                for init_a in [true, false] {
+                    let ca = ctx_with(1, &key, &[], la, ap);
+                    let cb = ctx_with(2, &key, &[], lb, bp);
+                    let (ia, ib) = (big_node_info(&mut rng), big_node_info(&mut rng));
+                    let (ea, eb) = (encoded(&ia), encoded(&ib));
+                    let mut x = ca.peer_instance(ia);
+                    let mut y = cb.peer_instance(ib);
+                    let mut wire: Vec<Vec<u8>> = vec![];
+                    let mut m = MsgBuffer::new(100);
+                    let mut queue: std::collections::VecDeque<(bool, Vec<u8>)> = Default::default(); // (to x?, bytes)
+                    let r = if init_a { x.initialize(&mut m) } else { y.initialize(&mut m) };
+                    if r.is_ok() {
+                        queue.push_back((!init_a, m.message().to_vec()));
+                    }
+                    let mut steps = 0;
+                    let mut secs = 0;
+                    loop {
+                        while let Some((to_x, bytes)) = queue.pop_front() {
+                            steps += 1;
+                            if steps > 40 {
+                                break;
+                            }
+                            wire.push(bytes.clone());
+                            let o = guarded(|| feed(if to_x { &mut x } else { &mut y }, &bytes));
+                            if let Ok(o) = o {
+                                if o.res.is_ok() && !o.out.is_empty() {
+                                    queue.push_back((!to_x, o.out));
+                                }
+                            }
+                        }
+                        secs += 1;
+                        if secs > 3 || steps > 40 {
+                            break;
+                        }
+                        // what the ends repeat in the following seconds
+                        for to_x in [false, true] {
+                            let o = guarded(|| tick(if to_x { &mut y } else { &mut x }));
+                            if let Ok(o) = o {
+                                if !o.out.is_empty() {
+                                    queue.push_back((to_x, o.out));
+                                }
+                            }
+                        }
+                    }
+                    let both = ap && bp;
+                    let all: Vec<u8> = wire.iter().flat_map(|d| d.iter().copied().chain([0xaau8; 9])).collect();
+                    let name = format!("{:?}{}|{:?}{}|{}", la, if ap { "+plain" } else { "" }, lb, if bp { "+plain" } else { "" }, if init_a { "A" } else { "B" });
+                    for (what, clear) in [("handshake-info-a", &ea), ("handshake-info-b", &eb)] {
+                        let mut e = cleartext_event("handshake", what, &name, both, clear, &all, c);
+                        e["datagrams"] = json!(wire.len());
+                        t.ev(e);
+                    }
+                }
+            }
+        }
+    }
+}
+
 fn peer_level(tier: &str, t: &mut Trace, c: &mut Counters, failures: &mut Vec<String>) {
     let mut rng = rng(72);
     let (pr, pb) = fresh_keypair();
@@ -745,6 +819,7 @@ pub fn run(args: &[String]) -> Value {
     let mut failures = vec![];
     core_level(tier, &mut t, &mut c);
     core_history(tier, &mut t, &mut c);
+    handshake_cleartext(&mut t, &mut c);
     peer_level(tier, &mut t, &mut c, &mut failures);
     mesh(tier, &mut t, &mut c, &mut failures);
     let events = t.finish();
